@@ -15,6 +15,7 @@ def cursor_saved_after_the_events_it_covers(w: World):
     processed (each processing ends in a commit), and never when the step was cut short by a stop"""
     em = w.event_manager(w.changed)
     stopped0 = em.stopped
+    c0 = em.cursor
     em._do_unsafe()
     names = effect_names()
     saves = calls("storage_update_data")
@@ -34,6 +35,13 @@ def cursor_saved_after_the_events_it_covers(w: World):
         check(names[len(names) - 1] == "storage_update_data", "and that write is the last effect of the step")
         check(saves[0].args[0] == em._cursor_tag, "under the cursor tag")
         check(saves[0].args[1] == em.cursor and em.cursor is not None or saves[0].args[1] == em.cursor, "the stored cursor is the one remembered")
+    reads = calls("get_current_cursor")
+    if not stopped0:
+        check(len(reads) >= 1, "a step that ran to its end looks at the provider's position")
+        cur = reads[len(reads) - 1].result
+        check((len(saves) == 1) == (cur != c0), "the position is persisted exactly when it moved")
+        if len(saves) == 1:
+            check(saves[0].args[1] == cur, "and what is persisted is the provider's position")
     if stopped0:
         check(len(calls("_process_event")) == 0, "a stopped manager processes no provider event")
         for c in provider_calls():
@@ -52,6 +60,8 @@ def process_event_contract(w: World, from_walk: bool):
     ev = w.event("ev")
     had_oid = ev.oid is not None
     dir_delete_by_path = ev.exists is False and truthy(ev.path) and ev.otype == DIRECTORY
+    known = w.state.lookup_oid(w.changed, ev.oid) if ev.oid is not None else None
+    unchanged = known is not None and known[w.changed].hash == ev.hash and known[w.changed].path == ev.path
     em._process_event(ev, from_walk)
     ups = calls("update")
     commits = calls("storage_commit")
@@ -60,6 +70,10 @@ def process_event_contract(w: World, from_walk: bool):
     check(len(ups) <= 1 and len(commits) <= 1, "at most one update and one commit")
     if not had_oid and not dir_delete_by_path:
         check(len(ups) == 0 and len(commits) == 0, "an event without an id is ignored")
+    if had_oid and not from_walk:
+        check(len(ups) == 1, "an ordinary event with an id is always applied -- never dropped for 'nothing changed'")
+    if had_oid and from_walk:
+        check((len(ups) == 0) == unchanged, "a walk event is dropped exactly when the object is known with the same hash and path")
     if len(ups) == 1:
         check(len(commits) == 1 and names[len(names) - 1] == "storage_commit", "the update is followed by a commit")
         check(ups[0].held >= 1 and commits[0].held >= 1, "both under the state lock")
@@ -86,6 +100,13 @@ def event_manager_fault_classification(w: World):
         raised = e
     notes = calls("notify_from_exception")
     from cloudsync.runnable import _BackoffError
+    rc = calls("_reconnect_if_needed")
+    check(len(rc) == 1 and effect_names()[0] == "_reconnect_if_needed", "every step first makes sure the provider is connected")
+    vr = calls("_validate_root")
+    if len(vr) == 1 and vr[0].ok:
+        check((len(calls("_do_unsafe")) == 1) == (vr[0].result is True), "events are taken in exactly when the root is validated")
+    if isinstance(raised, _BackoffError) and len(calls("_save_current_cursor")) == 0 and not na0 and em.need_auth is False:
+        check(len(notes) == 1, "a temporary / disconnected / namespace fault is reported, once")
     if raised is None:
         check(len(notes) == 0, "a clean step reports nothing")
         check(em.need_auth == na0 and em.need_walk == nw0, "and changes no recovery flag")
@@ -286,3 +307,26 @@ def rename_event_reuses_the_prior_entry(w: World):
     check(prior[other].sync_hash == o_sh and prior[other].sync_path == o_sp and prior[side].sync_hash == s_sh and prior[side].sync_path == s_sp,
           "last-synced markers are untouched (the rename is still to be mirrored)")
     check(truthy(prior[side].changed) and in_changeset(state, prior), "and it is pending")
+
+
+@lemma(props=["C14", "C06"], configs="sides", raises=["Exception"],
+       stubs={"cloudsync.event:EventManager._do_first_init": {"results": ["None"], "raises": False, "havoc": False},
+              "cloudsync.event:EventManager._do_walk_if_needed": {"results": ["None"], "raises": False, "havoc": False},
+              "cloudsync.event:EventManager._process_event": {"results": ["None"], "raises": False, "havoc": False},
+              "cloudsync.event:EventManager._save_current_cursor": {"results": ["None"], "raises": False, "havoc": False}})
+def queued_events_are_taken_in_first(w: World, from_walk: bool):
+    """L14.6: an event handed in by the application (queue) is processed in the next step, with the walk flag it was
+    queued with, before any event of the provider, and the queue is emptied"""
+    em = w.event_manager(w.changed)
+    q = w.event("queued")
+    em._queue = [(q, from_walk)]
+    assume(not em.stopped)
+    em._do_unsafe()
+    pe = calls("_process_event")
+    check(len(pe) >= 1 and pe[0].args[0] is q and pe[0].kw_from_walk == from_walk, "the queued event is processed first, with its walk flag")
+    check(len(em._queue) == 0, "and the queue is emptied")
+    seen_provider = False
+    for n in effect_names():
+        if n == "read:events":
+            seen_provider = True
+    check(seen_provider, "provider events are asked for afterwards")
